@@ -21,6 +21,7 @@ func (s *State) evalAssignment(right object.Object, node *ast.InfixExpression) o
 		log.Warnf("Not assigning %q", right.Inspect())
 		return right
 	}
+	right = object.CopyRegister(right) // store the current value, not the (live) register itself.
 	switch node.Left.Value().Type() {
 	case token.DOT:
 		idxE, ok := node.Left.(*ast.IndexExpression)
@@ -372,12 +373,12 @@ func (s *State) evalMapLiteral(node *ast.MapLiteral) object.Object {
 
 	for _, keyNode := range node.Order {
 		valueNode := node.Pairs[keyNode]
-		key := s.Eval(keyNode)
+		key := object.CopyRegister(s.Eval(keyNode))
 		if !object.Equals(key, key) {
 			log.Warnf("key %s is not hashable", key.Inspect())
 			return s.NewError("key " + key.Inspect() + " is not hashable")
 		}
-		value := s.Eval(valueNode)
+		value := object.CopyRegister(s.Eval(valueNode))
 		result = result.Set(key, value)
 	}
 	return result
@@ -527,7 +528,7 @@ func (s *State) evalBuiltin(node *ast.Builtin) object.Object {
 		if isError {
 			val = object.String{Value: val.(object.Error).Value}
 		}
-		return object.MakeQuad(ErrorKey, object.NativeBoolToBooleanObject(isError), object.ValueKey, val)
+		return object.MakeQuad(ErrorKey, object.NativeBoolToBooleanObject(isError), object.ValueKey, object.CopyRegister(val))
 	case token.ERROR, token.PRINT, token.PRINTLN, token.LOG:
 		return s.evalPrintLogError(node)
 	case token.FIRST:
